@@ -34,9 +34,9 @@ Proof.
 Qed.
 
 (* ---------- fuel ---------- *)
-Lemma parse_next_fuel_irrelevant f1 : forall f2 input,
+Lemma parse_next_fuel_irrelevant body f1 : forall f2 input,
   (length input < f1)%nat -> (length input < f2)%nat ->
-  h3_parse_next_fuel f1 input = h3_parse_next_fuel f2 input.
+  h3_parse_next_fuel body f1 input = h3_parse_next_fuel body f2 input.
 Proof.
   induction f1 as [|f1 IH]; intros f2 input H1 H2; [lia|].
   destruct f2 as [|f2]; [lia|]. cbn [h3_parse_next_fuel].
@@ -47,40 +47,40 @@ Proof.
   apply IH; rewrite skipn_length; lia.
 Qed.
 
-Lemma parse_next_unfold input :
-  h3_parse_next input =
+Lemma parse_next_unfold body input :
+  h3_parse_next_b body input =
   match vi_read input with
-  | None => (H3Err H3EOF, [])
+  | None => (H3Err (match input with [] => H3EOF | _ => trunc_err body end), [])
   | Some (t, r1) =>
     match vi_read r1 with
-    | None => (H3Err H3EOF, [])
+    | None => (H3Err (trunc_err body), [])
     | Some (l, r2) =>
       if t =? h3FrameData then (H3Ok (H3Data l), r2)
       else if t =? h3FrameHeaders then (H3Ok (H3Headers l), r2)
       else if t =? h3FrameSettings then h3_parse_settings_frame r2 l
       else if memN t h3ReservedTypes then (H3Err (H3Reserved t), r2)
-      else if lenN r2 <? l then (H3Err H3EOF, [])
-      else h3_parse_next (skipn (N.to_nat l) r2)
+      else if lenN r2 <? l then (H3Err (trunc_err body), [])
+      else h3_parse_next_b body (skipn (N.to_nat l) r2)
     end
   end.
 Proof.
-  unfold h3_parse_next at 1. cbn [h3_parse_next_fuel].
+  unfold h3_parse_next_b at 1. cbn [h3_parse_next_fuel].
   destruct (vi_read input) as [[t r1]|] eqn:R1; [|reflexivity].
   destruct (vi_read r1) as [[l r2]|] eqn:R2; [|reflexivity].
   pose proof (vi_read_shorter _ _ _ R1). pose proof (vi_read_shorter _ _ _ R2).
   repeat match goal with |- context [if ?c then _ else _] => destruct c; try reflexivity end.
-  unfold h3_parse_next. apply parse_next_fuel_irrelevant; rewrite ?skipn_length; lia.
+  unfold h3_parse_next_b. apply parse_next_fuel_irrelevant; rewrite ?skipn_length; lia.
 Qed.
 
 (* ParseNext on  <type> <length> rest  for any accepted encodings of the two integers *)
-Lemma parse_next_header et el t l rest : is_enc et t -> is_enc el l ->
-  h3_parse_next (et ++ el ++ rest) =
+Lemma parse_next_header body et el t l rest : is_enc et t -> is_enc el l ->
+  h3_parse_next_b body (et ++ el ++ rest) =
     if t =? h3FrameData then (H3Ok (H3Data l), rest)
     else if t =? h3FrameHeaders then (H3Ok (H3Headers l), rest)
     else if t =? h3FrameSettings then h3_parse_settings_frame rest l
     else if memN t h3ReservedTypes then (H3Err (H3Reserved t), rest)
-    else if lenN rest <? l then (H3Err H3EOF, [])
-    else h3_parse_next (skipn (N.to_nat l) rest).
+    else if lenN rest <? l then (H3Err (trunc_err body), [])
+    else h3_parse_next_b body (skipn (N.to_nat l) rest).
 Proof.
   intros Et El. rewrite parse_next_unfold. rewrite (vi_read_enc et t) by exact Et.
   rewrite (vi_read_enc el l) by exact El. reflexivity.
@@ -89,26 +89,26 @@ Qed.
 (* ---------- frame headers ---------- *)
 (* dataFrame.Append / headersFrame.Append, read back by ParseNext: same type, same length, the
    payload left in the reader - and the same for every non-minimal encoding a peer may choose *)
-Theorem h3_frame_header_roundtrip t l rest : l < 2 ^ 62 ->
+Theorem h3_frame_header_roundtrip body t l rest : l < 2 ^ 62 ->
   (t = h3FrameData \/ t = h3FrameHeaders) ->
   exists hb, h3_frame_header t l = Some hb /\
-    h3_parse_next (hb ++ rest) = (H3Ok (if t =? h3FrameData then H3Data l else H3Headers l), rest).
+    h3_parse_next_b body (hb ++ rest) = (H3Ok (if t =? h3FrameData then H3Data l else H3Headers l), rest).
 Proof.
   intros Hl Ht.
   assert (Tt : t < 2 ^ 62) by (destruct Ht; subst; reflexivity).
   destruct (vi_append_enc t Tt) as (et & lt & At & _ & Et & _).
   destruct (vi_append_enc l Hl) as (el & ll & Al & _ & El & _).
   exists (et ++ el). unfold h3_frame_header. rewrite At, Al. split; [reflexivity|].
-  rewrite <- app_assoc. rewrite (parse_next_header et el t l rest Et El).
+  rewrite <- app_assoc. rewrite (parse_next_header body et el t l rest Et El).
   destruct Ht; subst; reflexivity.
 Qed.
 
-Theorem h3_frame_header_any_encoding et el t l rest : is_enc et t -> is_enc el l ->
-  (t = h3FrameData -> h3_parse_next (et ++ el ++ rest) = (H3Ok (H3Data l), rest)) /\
-  (t = h3FrameHeaders -> h3_parse_next (et ++ el ++ rest) = (H3Ok (H3Headers l), rest)) /\
-  (In t h3ReservedTypes -> h3_parse_next (et ++ el ++ rest) = (H3Err (H3Reserved t), rest)).
+Theorem h3_frame_header_any_encoding body et el t l rest : is_enc et t -> is_enc el l ->
+  (t = h3FrameData -> h3_parse_next_b body (et ++ el ++ rest) = (H3Ok (H3Data l), rest)) /\
+  (t = h3FrameHeaders -> h3_parse_next_b body (et ++ el ++ rest) = (H3Ok (H3Headers l), rest)) /\
+  (In t h3ReservedTypes -> h3_parse_next_b body (et ++ el ++ rest) = (H3Err (H3Reserved t), rest)).
 Proof.
-  intros Et El. rewrite (parse_next_header et el t l rest Et El). repeat split.
+  intros Et El. rewrite (parse_next_header body et el t l rest Et El). repeat split.
   - intros ->. reflexivity.
   - intros ->. reflexivity.
   - intro I. cbn in I. destruct I as [<-|[<-|[<-|[<-|[]]]]]; reflexivity.
@@ -116,11 +116,11 @@ Qed.
 
 (* every other frame type - the four known ones the client does not act on, GREASE, extensions -
    is skipped with its payload: the stream stays in step *)
-Theorem h3_unknown_frame_skipped et el t p rest : is_enc et t -> is_enc el (lenN p) ->
+Theorem h3_unknown_frame_skipped body et el t p rest : is_enc et t -> is_enc el (lenN p) ->
   t <> h3FrameData -> t <> h3FrameHeaders -> t <> h3FrameSettings -> ~ In t h3ReservedTypes ->
-  h3_parse_next (et ++ el ++ p ++ rest) = h3_parse_next rest.
+  h3_parse_next_b body (et ++ el ++ p ++ rest) = h3_parse_next_b body rest.
 Proof.
-  intros Et El N0 N1 N4 NR. rewrite (parse_next_header et el t (lenN p) (p ++ rest) Et El).
+  intros Et El N0 N1 N4 NR. rewrite (parse_next_header body et el t (lenN p) (p ++ rest) Et El).
   destruct (N.eqb_spec t h3FrameData); [contradiction|].
   destruct (N.eqb_spec t h3FrameHeaders); [contradiction|].
   destruct (N.eqb_spec t h3FrameSettings); [contradiction|].
@@ -134,11 +134,11 @@ Proof.
 Qed.
 
 (* a frame whose announced payload is not all there: io.EOF *)
-Theorem h3_unknown_frame_truncated et el t l rest : is_enc et t -> is_enc el l ->
+Theorem h3_unknown_frame_truncated body et el t l rest : is_enc et t -> is_enc el l ->
   t <> h3FrameData -> t <> h3FrameHeaders -> t <> h3FrameSettings -> ~ In t h3ReservedTypes ->
-  lenN rest < l -> h3_parse_next (et ++ el ++ rest) = (H3Err H3EOF, []).
+  lenN rest < l -> h3_parse_next_b body (et ++ el ++ rest) = (H3Err (trunc_err body), []).
 Proof.
-  intros Et El N0 N1 N4 NR S. rewrite (parse_next_header et el t l rest Et El).
+  intros Et El N0 N1 N4 NR S. rewrite (parse_next_header body et el t l rest Et El).
   destruct (N.eqb_spec t h3FrameData); [contradiction|].
   destruct (N.eqb_spec t h3FrameHeaders); [contradiction|].
   destruct (N.eqb_spec t h3FrameSettings); [contradiction|].
@@ -477,13 +477,13 @@ Proof. apply assocN_none_iff. Qed.
    iteration order of it, both flags, any bytes following - the frame is read back exactly (Other in
    the order written) as long as the payload is within the parser's own 8 KiB cap; beyond it the
    fork's own parser refuses what the fork wrote *)
-Theorem h3_settings_roundtrip d e order rest :
+Theorem h3_settings_roundtrip body d e order rest :
   NoDup (map fst order) -> Forall other_pair_ok order ->
   exists l, h3_settings_len d e order = Some l /\
     (l < 2 ^ 62 -> exists b, h3_settings_append d e order = Some b /\
        (l <= h3SettingsMaxLen ->
-          h3_parse_next (b ++ rest) = (H3Ok (H3Settings (mk_settings d e order)), rest)) /\
-       (h3SettingsMaxLen < l -> fst (h3_parse_next (b ++ rest)) = H3Err (H3SettingsTooLarge l))).
+          h3_parse_next_b body (b ++ rest) = (H3Ok (H3Settings (mk_settings d e order)), rest)) /\
+       (h3SettingsMaxLen < l -> fst (h3_parse_next_b body (b ++ rest)) = H3Err (H3SettingsTooLarge l))).
 Proof.
   intros ND FA.
   set (ps := h3_fixed_pairs d e ++ order).
@@ -498,7 +498,7 @@ Proof.
   exists ((et ++ el) ++ payload). split.
   { unfold h3_settings_append, h3_settings_len, h3_settings_payload. fold ps. rewrite Hl, At, Al, Hb. reflexivity. }
   rewrite <- !app_assoc.
-  rewrite (parse_next_header et el h3FrameSettings (lenN payload) (payload ++ rest) Et El).
+  rewrite (parse_next_header body et el h3FrameSettings (lenN payload) (payload ++ rest) Et El).
   change (h3FrameSettings =? h3FrameData) with false. change (h3FrameSettings =? h3FrameHeaders) with false.
   change (h3FrameSettings =? h3FrameSettings) with true. cbv iota.
   unfold h3_parse_settings_frame. split.
@@ -533,20 +533,20 @@ Qed.
 
 (* "in any iteration order": two orders of the same map give frames of the same length that are
    both read back, to settings that are equal as maps *)
-Theorem h3_settings_order_irrelevant d e o1 o2 rest :
+Theorem h3_settings_order_irrelevant body d e o1 o2 rest :
   Permutation o1 o2 -> NoDup (map fst o1) -> Forall other_pair_ok o1 ->
   exists l b1 b2, h3_settings_len d e o1 = Some l /\ h3_settings_len d e o2 = Some l /\
     (l <= h3SettingsMaxLen ->
       h3_settings_append d e o1 = Some b1 /\ h3_settings_append d e o2 = Some b2 /\
       lenN b1 = lenN b2 /\
-      h3_parse_next (b1 ++ rest) = (H3Ok (H3Settings (mk_settings d e o1)), rest) /\
-      h3_parse_next (b2 ++ rest) = (H3Ok (H3Settings (mk_settings d e o2)), rest)).
+      h3_parse_next_b body (b1 ++ rest) = (H3Ok (H3Settings (mk_settings d e o1)), rest) /\
+      h3_parse_next_b body (b2 ++ rest) = (H3Ok (H3Settings (mk_settings d e o2)), rest)).
 Proof.
   intros P ND1 FA1.
   assert (ND2 : NoDup (map fst o2)) by (eapply Permutation_NoDup; [apply Permutation_map; exact P|exact ND1]).
   assert (FA2 : Forall other_pair_ok o2) by (eapply Permutation_Forall; eassumption).
-  destruct (h3_settings_roundtrip d e o1 rest ND1 FA1) as (l1 & L1 & R1).
-  destruct (h3_settings_roundtrip d e o2 rest ND2 FA2) as (l2 & L2 & R2).
+  destruct (h3_settings_roundtrip body d e o1 rest ND1 FA1) as (l1 & L1 & R1).
+  destruct (h3_settings_roundtrip body d e o2 rest ND2 FA2) as (l2 & L2 & R2).
   assert (EQ : l1 = l2).
   { unfold h3_settings_len in L1, L2.
     assert (PL : forall a b, Permutation a b -> forall x, h3_pairs_len a = Some x -> h3_pairs_len b = Some x).
@@ -601,12 +601,12 @@ Proof.
   rewrite Bool.orb_true_iff, IH, N.eqb_eq. split; intros [A|A]; auto.
 Qed.
 
-Theorem h3_parse_next_ok_inv : forall input f rest, h3_parse_next input = (H3Ok f, rest) ->
-  exists sk et el t l body, skipped_frames sk /\ is_enc et t /\ is_enc el l /\ input = sk ++ et ++ el ++ body /\
-    ((t = h3FrameData /\ f = H3Data l /\ rest = body) \/
-     (t = h3FrameHeaders /\ f = H3Headers l /\ rest = body) \/
+Theorem h3_parse_next_ok_inv body : forall input f rest, h3_parse_next_b body input = (H3Ok f, rest) ->
+  exists sk et el t l bd, skipped_frames sk /\ is_enc et t /\ is_enc el l /\ input = sk ++ et ++ el ++ bd /\
+    ((t = h3FrameData /\ f = H3Data l /\ rest = bd) \/
+     (t = h3FrameHeaders /\ f = H3Headers l /\ rest = bd) \/
      (t = h3FrameSettings /\ l <= h3SettingsMaxLen /\
-      exists payload s, body = payload ++ rest /\ lenN payload = l /\
+      exists payload s, bd = payload ++ rest /\ lenN payload = l /\
                         h3_parse_settings_payload payload = H3Ok s /\ f = H3Settings s)).
 Proof.
   intro input. remember (length input) as n eqn:Hn. revert input Hn.
@@ -636,9 +636,85 @@ Proof.
   set (p := firstn (N.to_nat l) r2). set (r3 := skipn (N.to_nat l) r2).
   assert (Lp : lenN p = l) by (unfold p, lenN in *; rewrite firstn_length; lia).
   assert (E3 : r2 = p ++ r3) by (symmetry; apply firstn_skipn).
-  destruct (IH (length r3)) with (input := r3) (f := f) (rest := rest) as (sk & et' & el' & t' & l' & body & SKs & Et' & El' & E' & Cases); [|reflexivity|exact H|].
+  destruct (IH (length r3)) with (input := r3) (f := f) (rest := rest) as (sk & et' & el' & t' & l' & bd & SKs & Et' & El' & E' & Cases); [|reflexivity|exact H|].
   { subst n. rewrite E1, E2, E3. rewrite !app_length. lia. }
-  exists (et ++ el ++ p ++ sk), et', el', t', l', body. repeat split; try assumption.
+  exists (et ++ el ++ p ++ sk), et', el', t', l', bd. repeat split; try assumption.
   - apply (sk_cons et el t p sk); try assumption. rewrite Lp. exact El.
   - rewrite E1, E2, E3, E'. rewrite <- !app_assoc. reflexivity.
+Qed.
+
+(* ---------- where the stream ends: between two frames or inside one ---------- *)
+(* a stream that ends right behind complete skipped frames (GREASE, CANCEL_PUSH, GOAWAY, ...) is a
+   clean end - io.EOF - on control streams AND on message-body streams: the "inside a frame" test
+   starts afresh at every frame, whatever was skipped before *)
+Theorem h3_skipped_then_end body input : skipped_frames input ->
+  h3_parse_next_b body input = (H3Err H3EOF, []).
+Proof.
+  induction 1 as [|et el t p r Et El (N0 & N1 & N4 & NR) SK IH].
+  - rewrite parse_next_unfold. reflexivity.
+  - rewrite (h3_unknown_frame_skipped body et el t p r Et El N0 N1 N4 NR). exact IH.
+Qed.
+
+(* conversely, on a message-body stream a clean io.EOF means exactly that (or a SETTINGS frame, which
+   has no business on a body stream, whose own payload reader reports its short payload as io.EOF):
+   a stream cut inside a frame type, a frame length or a skipped payload is never a clean end *)
+Theorem h3_body_eof_inv : forall input r, h3_parse_next_b true input = (H3Err H3EOF, r) ->
+  skipped_frames input \/
+  exists sk et el l bd, skipped_frames sk /\ is_enc et h3FrameSettings /\ is_enc el l /\
+    input = sk ++ et ++ el ++ bd /\ fst (h3_parse_settings_frame bd l) = H3Err H3EOF.
+Proof.
+  intro input. remember (length input) as n eqn:Hn. revert input Hn.
+  induction n as [n IH] using lt_wf_ind. intros input Hn r H.
+  rewrite parse_next_unfold in H.
+  destruct (vi_read input) as [[t r1]|] eqn:R1.
+  2:{ destruct input; [left; constructor|]. cbn [trunc_err] in H. discriminate. }
+  destruct (vi_read r1) as [[l r2]|] eqn:R2; [|cbn [trunc_err] in H; discriminate].
+  destruct (vi_read_inv _ _ _ R1) as (et & Et & E1). destruct (vi_read_inv _ _ _ R2) as (el & El & E2).
+  pose proof (is_enc_nonempty _ _ Et) as NEt.
+  destruct (N.eqb_spec t h3FrameData) as [T0|T0]; [discriminate|].
+  destruct (N.eqb_spec t h3FrameHeaders) as [T1|T1]; [discriminate|].
+  destruct (N.eqb_spec t h3FrameSettings) as [T4|T4].
+  { right. exists [], et, el, l, r2. subst t. repeat split; try assumption; [constructor| |rewrite H; reflexivity].
+    rewrite E1, E2. reflexivity. }
+  destruct (memN t h3ReservedTypes) eqn:M; [discriminate|].
+  destruct (N.ltb_spec (lenN r2) l); [cbn [trunc_err] in H; discriminate|].
+  assert (SK : skippable t).
+  { repeat split; try assumption. intro I. apply memN_In in I. congruence. }
+  set (p := firstn (N.to_nat l) r2) in *. set (r3 := skipn (N.to_nat l) r2) in *.
+  assert (Lp : lenN p = l) by (unfold p, lenN in *; rewrite firstn_length; lia).
+  assert (E3 : r2 = p ++ r3) by (symmetry; apply firstn_skipn).
+  destruct (IH (length r3)) with (input := r3) (r := r) as [SKs|(sk & et' & el' & l' & bd & SKs & Et' & El' & E' & PS)]; [|reflexivity|exact H| |].
+  { subst n. rewrite E1, E2, E3. rewrite !app_length. lia. }
+  - left. rewrite E1, E2, E3. apply (sk_cons et el t p r3); try assumption. rewrite Lp. exact El.
+  - right. exists (et ++ el ++ p ++ sk), et', el', l', bd. repeat split; try assumption.
+    + apply (sk_cons et el t p sk); try assumption. rewrite Lp. exact El.
+    + rewrite E1, E2, E3, E'. rewrite <- !app_assoc. reflexivity.
+Qed.
+
+(* the body-stream flag changes nothing but the name of the truncation error: same frames, same
+   bytes left, and the same errors up to EOF / UnexpectedEOF *)
+Definition same_up_to_eof (a b : h3res h3frame) : Prop :=
+  match a, b with
+  | H3Ok x, H3Ok y => x = y
+  | H3Err H3EOF, H3Err (H3EOF | H3UnexpectedEOF) => True
+  | H3Err x, H3Err y => x = y
+  | _, _ => False
+  end.
+Theorem h3_body_flag_only_renames_eof : forall input,
+  same_up_to_eof (fst (h3_parse_next_b false input)) (fst (h3_parse_next_b true input)) /\
+  (forall f, fst (h3_parse_next_b false input) = H3Ok f -> h3_parse_next_b false input = h3_parse_next_b true input).
+Proof.
+  intro input. remember (length input) as n eqn:Hn. revert input Hn.
+  induction n as [n IH] using lt_wf_ind. intros input Hn.
+  rewrite !parse_next_unfold.
+  destruct (vi_read input) as [[t r1]|] eqn:R1; [|destruct input; cbn; split; [trivial|discriminate|trivial|discriminate]].
+  destruct (vi_read r1) as [[l r2]|] eqn:R2; [|cbn; split; [trivial|discriminate]].
+  pose proof (vi_read_shorter _ _ _ R1). pose proof (vi_read_shorter _ _ _ R2).
+  destruct (t =? h3FrameData); [cbn; split; [reflexivity|reflexivity]|].
+  destruct (t =? h3FrameHeaders); [cbn; split; [reflexivity|reflexivity]|].
+  destruct (t =? h3FrameSettings).
+  { split; [|reflexivity]. destruct (fst (h3_parse_settings_frame r2 l)) as [x|e]; cbn; [reflexivity|destruct e; trivial]. }
+  destruct (memN t h3ReservedTypes); [cbn; split; [reflexivity|discriminate]|].
+  destruct (lenN r2 <? l); [cbn; split; [trivial|discriminate]|].
+  apply (IH (length (skipn (N.to_nat l) r2))); [|reflexivity]. rewrite skipn_length. lia.
 Qed.
